@@ -928,6 +928,17 @@ class Interp(seq_detached.DetachedMixin, S.SeqRun):
                             self.op_calls.append([si, oi, simdb.ctx.g - g_before])
                     self.after_op()
                 self.op_index = 'end'
+                ef = self.case.get('end_fault')
+                if ef and ef[0] == si:
+                    # the database fails while the session is ending: commit and the rollbacks that follow
+                    left = [3]
+
+                    def end_fault_hook(ev, kind=ef[1]):
+                        if left[0] > 0 and ev['kind'] in ('commit', 'rollback') and ev['phase'] == 'main':
+                            left[0] -= 1
+                            simdb.ctx.gfaults[ev['g']] = kind
+                    simdb.ctx.before_call = end_fault_hook
+                    self.probe('session_end_fault_armed')
                 end = sess.get('end', 'exit')
                 if end == 'raise':
                     ended = 'raise'
@@ -960,6 +971,7 @@ class Interp(seq_detached.DetachedMixin, S.SeqRun):
             self.compare_db(self.committed, 'C09', 'failed-session-changes-visible', 'exit-commit-failed')
         finally:
             simdb.ctx.gfaults.clear()
+            simdb.ctx.before_call = None
         if self.case.get('detached') and not core.local.db2cache and self.last_handles:
             self.detached_phase(si, self.last_handles, self.last_view, how, bool(opts.get('strict')))
         self.last_handles, self.last_view = {}, None
